@@ -51,7 +51,9 @@ Record tinfo := {
   ti_full_name : str;       (* instance.full_name *)
   ti_major : Z;             (* instance.version[0] *)
   ti_minor : Z;             (* instance.version[1] *)
-  ti_root_ns : str          (* instance.root_namespace *)
+  ti_root_ns : str;         (* instance.root_namespace *)
+  ti_full_namespace : str;  (* instance.full_namespace (for the halves of a service: the service's full name) *)
+  ti_has_parent : bool      (* instance.has_parent_service *)
 }.
 
 (* ---------- nunavut.lang._common.UniqueNameGenerator (hand model, tied by correspondence) ---------- *)
